@@ -832,6 +832,29 @@ class NAHooks(Hooks):
                 # exact arithmetic: close means equal
                 if is_scalar(a) and is_scalar(b):
                     return I.equal(a, b, None)
+                if isinstance(a, NA) or isinstance(b, NA):
+                    # elementwise tolerance test: identical entries are
+                    # close, constants are compared with NumPy's default
+                    # tolerances, anything else may or may not be close
+                    # (both outcomes are explored, cf. allclose)
+                    try:
+                        x, y = _np.broadcast_arrays(na_of(a, None).a,
+                                                    na_of(b, None).a)
+                    except ValueError:
+                        raise PyRaise('ValueError', None)
+                    res = _np.empty(x.shape, dtype=object)
+                    for idx in _np.ndindex(*x.shape):
+                        p_, q_ = to_rat(x[idx]), to_rat(y[idx])
+                        if (p_ - q_).is_zero():
+                            res[idx] = True
+                        elif p_.is_const() and q_.is_const():
+                            pc, qc = float(p_.constant()), float(
+                                q_.constant())
+                            res[idx] = abs(pc - qc) <= 1e-8 + 1e-5 * abs(qc)
+                        else:
+                            res[idx] = bool(I.decide(
+                                'np.isclose(%r, %r)' % (p_, q_)))
+                    return NA(res, DT('bool'))
                 return Opaque('np.isclose')
             return isclose
         if name == 'allclose':
